@@ -120,6 +120,10 @@ func (w *textWriter) WriteSymbol(val SymbolToken) error {
 
 // WriteSymbolFromString writes a symbol given a string.
 func (w *textWriter) WriteSymbolFromString(val string) error {
+	if _, ok := symbolIdentifier(val); ok {
+		// Text that looks like a symbol identifier must be quoted, or it reads back as that ID.
+		return w.writeValue("Writer.WriteSymbolFromString", NewSymbolTokenFromString(val), writeSymbol)
+	}
 	return w.writeValue("Writer.WriteSymbolFromString", val, writeSymbolFromString)
 }
 
